@@ -380,6 +380,14 @@ func universes(thorough bool) []*universe {
 	lc.LBClass = "x"
 	us = append(us, lc)
 
+	// an API server that defaults ingress[].ipMode (Kubernetes >= 1.30): what the controller reads back differs from what
+	// it wrote in a field it does not manage
+	im := mkUniverse("ipmode", ns12[:1], [][]metallbv1beta1.IPAddressPool{{mkPool("a", []string{"10.0.0.0/31", "fc00::/127"}, nil)}, restartLayouts[2]}, slots3[:2],
+		[]namedVariant{{"p80", mkSvc()}, {"p443-k1", mkSvc(ports(443), share("k1"))}, {"p80-prefer-dual", mkSvc(families(v1.IPFamilyPolicyPreferDualStack, "10.96.0.1", "fd00::1"))},
+			{"p80-clusterip-statuswiped", mkSvc(clusterIPType())}}, nil)
+	im.DefaultIPMode = true
+	us = append(us, im)
+
 	// one address, two services, every way a service gives its address up while the other waits (type change, request
 	// moved outside the pools, deletion): small enough for the fault menu at full depth
 	us = append(us, mkUniverse("release", ns12[:1], [][]metallbv1beta1.IPAddressPool{{mkPool("a", []string{"10.0.0.0/32"}, nil)}, restartLayouts[2]}, slots3[:2],
